@@ -318,13 +318,18 @@ func (sc *scenario) run() ([]map[string]any, error) {
 			return nil, err
 		}
 		if h >= T {
-			// one more full round: everything served so far has been processed; then the height must be final
-			if h2, _, err := sc.round(true); err != nil {
+			// one more full round: everything served so far has been processed; the target may have grown meanwhile (blocks
+			// the node asked for with getdata count as given once they are sent)
+			h2, _, err := sc.round(true)
+			if err != nil {
 				return nil, err
-			} else if h2 > h {
+			}
+			if h2 > h {
 				h = h2
 			}
-			break
+			if T = sc.target(); h >= T {
+				break
+			}
 		}
 		pg := fmt.Sprint(h)
 		if sc.progress != nil {
